@@ -74,6 +74,13 @@ Init ==
        [] Family = "sym1" ->
             \E f \in RegFilters, a \in 1..Len(SymArgs), src \in {"sv", "n2", "l"} :
                prog = <<Out(Filt(Var(<<src>>), <<FC(f, SymArgs[a])>>))>>
+       [] Family = "sym2tag" ->
+            \* a parameterised filter followed by a parameterless one (and the reverse), in the filter tag and in an expression:
+            \* the parameterless one must not see anybody else's parameter
+            \E f1 \in {"add", "cut", "default", "join"}, f2 \in RegFilters, a \in {2, 3} :
+               \/ prog = <<[t |-> "filter", chain |-> <<FC(f1, SymArgs[a]), FC(f2, NoArg)>>, body |-> <<T(<<"3", ".", "1", "4", " ", "b">>)>>]>>
+               \/ prog = <<[t |-> "filter", chain |-> <<FC(f2, NoArg), FC(f1, SymArgs[a]), FC(f2, NoArg)>>, body |-> <<T(<<"a", " ", "b">>)>>]>>
+               \/ prog = <<Out(Filt(Var(<<"sv">>), <<FC(f1, SymArgs[a]), FC(f2, NoArg)>>))>>
        [] Family = "sym2" ->
             \E f1 \in RegFilters, f2 \in RegFilters, a \in 1..Len(SymArgs) :
                \/ prog = <<Out(Filt(Var(<<"sv">>), <<FC(f1, SymArgs[a]), FC(f2, NoArg)>>))>>
